@@ -82,6 +82,9 @@ def fit_faults(spec):
     if spec["cost"] in ("nll", "nllr", "nll_poisson", "nllr_poisson", "poisson") and t in ("xy", "indexed"):
         out.append(("R8", {"call": "set_data", "how": "negative"}))
         out.append(("R8", {"call": "set_data", "how": "noninteger"}))
+        out.append(("R8", {"call": "set_data", "how": "negative_other_size"}))  # rejected data of another size: nothing built for them may stay
+    if spec["cost"] in ("nll", "nllr", "nll_poisson", "nllr_poisson", "poisson") and t == "hist":
+        out.append(("R8", {"call": "set_data", "how": "hist_noninteger_other_binning"}))
     return out
 
 
@@ -124,13 +127,25 @@ def do_fit_fault(sim, kind, f):
     if c == "constraint":
         return fit.add_parameter_constraint(f["name"], 1.0, 0.1)
     if c == "set_data":
+        if t == "hist":
+            K = fitlib.kf()
+            e = [float(v) for v in spec["edges"]]
+            c2 = K.HistContainer(bin_edges=[e[0] - 1.0] + e[1:] + [e[-1] + 1.0])  # other outer edges and one more bin
+            c2.set_bins([1.5] + [2.0] * (len(e) - 1))
+            fit.data = c2
+            return None
         if t == "xy":
             y = list(spec["y"])
-            y[0] = -1.0 if f["how"] == "negative" else y[0] + 0.5
-            fit.data = [list(spec["x"]), y]
+            x = list(spec["x"])
+            y[0] = y[0] + 0.5 if f["how"] == "noninteger" else -1.0
+            if f["how"] == "negative_other_size":
+                x, y = x + [x[-1] + 1.0], y + [3.0]
+            fit.data = [x, y]
         else:
             d = list(spec["d"])
-            d[0] = -1.0 if f["how"] == "negative" else d[0] + 0.5
+            d[0] = d[0] + 0.5 if f["how"] == "noninteger" else -1.0
+            if f["how"] == "negative_other_size":
+                d = d + [3.0]
             fit.data = d
         return None
     raise NotApplicable(c)
